@@ -114,7 +114,7 @@ class HistGen:
             if rng.random() < 0.2 and idx: idx = idx + [idx[0]]
             vals = [gen_value(rng, t, car) for _ in range(len(idx) + rng.choice([0, 0, 1, -1]))]
             vals = vals[:max(0, len(vals))]
-            return ['update_column', c, vals, idx, shown, car]
+            return ['update_column', c, vals, idx, shown, car, rng.choice([None, None, 'i64', 'npscalar', 'i32'])]
         if r < 0.72:
             name = rng.choice(NEWCOLS + (['x', 'Name', 'rowid', 'my col'] if rng.random() < 0.1 else []))
             ct = rng.choice(COLTYPES)
@@ -196,7 +196,7 @@ def explore(ctx, tier, rng, search=False):
     cases = []
     for h in range(nh):
         n = rng.randint(1, 30)
-        chains = rng.choice([('A', 'B'), ('A',), ('X', 'B', '1'), ('b', 'a')])
+        chains = rng.choice([('A', 'B'), ('A',), ('X', 'B', '1'), ('b', 'a'), ('1', 'A'), ('A', '2', 'B'), ('0', 'B', 'A')])
         structs = [G.gen_atoms(rng, n, chains=chains)]
         case = {'structs': structs}
         r = rng.random()
